@@ -201,7 +201,7 @@ OPEN_CLASSES = ("jsreg-replace-root", "merge-nul-name", "parent-pointers", "jbl-
 # strncmp in _jbl_merge_patch_node (and jbn_clone copies names / strings with strndup); parent-pointers: children taken over by
 # _jbl_copy_node_data keep the `parent` pointer of the patch node (freed in heap mode); jbl-double-text: jbl_merge_patch_jbl sends the
 # patch through JSON text (doubles rounded to 8 fraction digits)
-OPEN_ON = set(OPEN_CLASSES) if "all" in _open_env else set(x for x in _open_env if x in OPEN_CLASSES)
+OPEN_ON = set(OPEN_CLASSES)     # all repaired in /repo (2e08aae, 662df5e, 219cddd, 61c2a75, 9a1d719): generated and judged on every run
 
 
 def member_path(doc, path_text):
